@@ -158,6 +158,7 @@ class Facts:
         with open(path) as f:
             d = json.load(f)
         self.meta = d["meta"]
+        self.helper_attrs = d.get("helper_attrs", [])
         self.types = d["hir"]["types"]
         self.hir = d["hir"]["bodies"]
         self.skipped_non_src = d["hir"]["skipped_non_src"]
